@@ -28,6 +28,16 @@ func (e *Engine) renderOblig(o *Oblig, axioms []*Term) {
 		return
 	}
 	o.Script, o.Quant = e.scriptFor(o, axioms)
+	// slim query (fallback when the full one is not decided): structure invariants repeated for many states
+	// drown small goals; dropping the quantified hypotheses that share no heap location with the goal is sound
+	if o.Kind != "canary" && o.Quant {
+		if slim, dropped := slimPC(o.PC, o.Goal); dropped >= 6 {
+			full := o.PC
+			o.PC = slim
+			o.SlimScript, _ = e.scriptFor(o, axioms)
+			o.PC = full
+		}
+	}
 	// candidate-counterexample query: quantified facts dropped
 	if o.Kind != "canary" && o.Quant && !termQuantified(o.Goal) {
 		var keep []*Term
